@@ -150,7 +150,8 @@ def StepOK (w : World) (m : Wasm.Module) (lt : List Ty) (i : SI) (s : LS) (tys' 
       (∀ rest, execBody w [] ((lowerI i s).1 ++ rest) (mk env) = execBody w [] rest (mk env')) ∧
       Inv lt (lowerI i s).2 tys' stack' locals' env') ∨
   (∃ code fr', Wasm.execInstr m (n + 1) i.toInstr ⟨stack, locals⟩ st = (.trap (trapKind code), fr', st) ∧
-      (∀ rest, execBody w [] ((lowerI i s).1 ++ rest) (mk env) = some (.trap code (mk env))))
+      (∀ rest, execBody w [] ((lowerI i s).1 ++ rest) (mk env) = some (.trap code (mk env))) ∧
+      (code = codeDivByZero ∨ code = codeOverflow))
 
 theorem mk_set (env : Val → Nat) (r : Val) (v : Nat) : (mk env).set r v = mk (upd env r v) := rfl
 
@@ -483,7 +484,7 @@ theorem step_div (t : Ty) (op : IDiv) (hinv : Inv lt s tys stack locals env)
         · have := inv2.pushNew b _ (evalDiv_lt _ _ _ _ _ hd) 1 (Nat.le_refl _)
           simpa [lowerI, LS.pop, LS.pushNew] using this
       | error code =>
-        refine .inr ⟨code, ⟨y :: x :: stk2, locals⟩, ?_, ?_⟩
+        refine .inr ⟨code, ⟨y :: x :: stk2, locals⟩, ?_, ?_, evalDiv_code hd⟩
         · simp only [SI.toInstr, Wasm.execInstr, scalar_div b op x y, hd, divRes, Wasm.numResult]
         · intro rest
           simp only [lowerI, LS.pop, List.headD_cons, List.tail_cons, List.cons_append, List.nil_append]
